@@ -631,27 +631,64 @@ theorem stripMessages_empty (ps : List Prompt) : ∀ p ∈ stripMessages ps, p.m
   obtain ⟨q, _, rfl⟩ := hp
   rfl
 
-theorem enqueue_ok_clears (upload : Prompt → Option Str) (ps : List Prompt) :
-    (enqueue upload ps).2 = true → ∀ p ∈ (enqueue upload ps).1, p.messages = [] := by
+/-! ### the `Default` arm over a shape -/
+
+theorem shapeSafe_iff (sh : EnqShape) :
+    shapeSafe sh = true ↔ sh.onSerializeErr = .propagate ∧ sh.onEnqueueErr = .propagate ∧
+      sh.clearsOnOk = true ∧ sh.stripsOnErr = true ∧ sh.stripsWhenNotEnqueueing = true := by
+  simp [shapeSafe, and_assoc]
+
+/-- under a safe shape, a loop that returns `Ok` has cleared every prompt -/
+theorem enqueueLoop_ok_clears (sh : EnqShape) (hs : shapeSafe sh = true) (ps : List Prompt) :
+    ∀ outs, (enqueueLoop sh ps outs).2 = true → ∀ p ∈ (enqueueLoop sh ps outs).1, p.messages = [] := by
+  obtain ⟨h1, h2, h3, _, _⟩ := (shapeSafe_iff sh).1 hs
   induction ps with
-  | nil => intro _ p hp; simp [enqueue] at hp
+  | nil => intro _ _ p hp; simp [enqueueLoop] at hp
   | cons q qs ih =>
-    intro hok p hp
+    intro outs hok p hp
     by_cases he : q.messages.isEmpty = true
-    · simp only [enqueue, he, if_true] at hok hp
+    · simp only [enqueueLoop, he, if_true] at hok hp
       simp only [List.mem_cons] at hp
       rcases hp with rfl | hp
       · simpa using he
-      · exact ih hok p hp
-    · simp only [enqueue, he, Bool.false_eq_true, if_false] at hok hp
-      cases hu : upload q with
-      | none => simp [hu] at hok
-      | some url =>
-        simp only [hu] at hok hp
+      · exact ih outs hok p hp
+    · simp only [enqueueLoop, he, Bool.false_eq_true, if_false, h1, h2, h3] at hok hp
+      generalize outs.headD .enqueueErr = o at hok hp
+      cases o with
+      | serializeErr => simp at hok
+      | enqueueErr => simp at hok
+      | ok url =>
+        simp only [if_true] at hok hp
         simp only [List.mem_cons] at hp
         rcases hp with rfl | hp
         · rfl
-        · exact ih hok p hp
+        · exact ih _ hok p hp
+
+theorem enqueueCas_ok_clears (sh : EnqShape) (hs : shapeSafe sh = true) (cas : CasRun) (ps : List Prompt) :
+    (enqueueCas sh cas ps).2 = true → ∀ p ∈ (enqueueCas sh cas ps).1, p.messages = [] := by
+  unfold enqueueCas
+  split
+  · exact enqueueLoop_ok_clears sh hs ps cas.outs
+  · intro h; simp at h
+
+/-- **safe shapes are safe**: whatever the database and every single enqueue do, the arm leaves
+    no message -/
+theorem defaultArm_no_messages (sh : EnqShape) (hs : shapeSafe sh = true) (sel : Str → Bool)
+    (env : UploadEnv) (ps out : List Prompt) (h : defaultArm sh sel env ps = some out) :
+    ∀ p ∈ out, p.messages = [] := by
+  obtain ⟨_, _, _, h4, h5⟩ := (shapeSafe_iff sh).1 hs
+  simp only [defaultArm, h4, h5, if_true] at h
+  split at h
+  · obtain ⟨n, hn⟩ := redactPrompts_eq sel ps
+    simp only [hn, Option.bind_some, Option.some.injEq] at h
+    subst h
+    split
+    · rename_i hok; exact enqueueCas_ok_clears sh hs _ _ hok
+    · exact stripMessages_empty _
+  · simp only [Option.some.injEq] at h
+    subst h; exact stripMessages_empty ps
+
+theorem codeShape_safe : shapeSafe codeShape = true := by decide
 
 /-- outside `notes` mode the filter leaves no message in any prompt -/
 theorem applyStorageMode_no_messages (sel : Str → Bool) (env : UploadEnv) (mode : Mode)
@@ -664,15 +701,176 @@ theorem applyStorageMode_no_messages (sel : Str → Bool) (env : UploadEnv) (mod
     subst h; exact stripMessages_empty ps
   | default =>
     simp only [applyStorageMode] at h
-    split at h
-    · obtain ⟨n, hn⟩ := redactPrompts_eq sel ps
-      simp only [hn, Option.bind_some, Option.some.injEq] at h
-      subst h
+    exact defaultArm_no_messages codeShape codeShape_safe sel env ps out h
+
+/-! ### the exact result of the `Default` arm of the code as it is -/
+
+theorem stripMessages_of_empty (l : List Prompt) (h : ∀ p ∈ l, p.messages = []) : stripMessages l = l := by
+  induction l with
+  | nil => rfl
+  | cons p ps ih =>
+    have hp : p.messages = [] := h p (List.mem_cons_self ..)
+    have := ih (fun q hq => h q (List.mem_cons_of_mem _ hq))
+    simp only [stripMessages, List.map_cons] at this ⊢
+    rw [this]
+    cases p; simp_all
+
+theorem stripMessages_cons (p : Prompt) (ps : List Prompt) :
+    stripMessages (p :: ps) = { p with messages := [] } :: stripMessages ps := rfl
+
+/-- stripped, the loop's result is: urls handed to the prompts with messages up to the first
+    failing iteration -/
+theorem enqueueLoop_strip (ps : List Prompt) :
+    ∀ outs, stripMessages (enqueueLoop codeShape ps outs).1 = stripMessages (setUrls ps (okPrefix outs)) := by
+  induction ps with
+  | nil => intro _; rfl
+  | cons q qs ih =>
+    intro outs
+    by_cases he : q.messages.isEmpty = true
+    · simp only [enqueueLoop, setUrls, he, if_true, stripMessages_cons, ih]
+    · have c1 : codeShape.onSerializeErr = .propagate := rfl
+      have c2 : codeShape.onEnqueueErr = .propagate := rfl
+      have c3 : codeShape.setsUrlOnOk = true := rfl
+      have c4 : codeShape.clearsOnOk = true := rfl
+      simp only [enqueueLoop, setUrls, he, Bool.false_eq_true, if_false, c1, c2, c3, c4, if_true]
+      cases outs with
+      | nil => simp [okPrefix]
+      | cons o rest =>
+        cases o with
+        | serializeErr => simp [okPrefix]
+        | enqueueErr => simp [okPrefix]
+        | ok url =>
+          have := ih rest
+          simp only [stripMessages] at this ⊢
+          simp [okPrefix, this]
+
+theorem specPrompt_isEmpty (sel : Str → Bool) (p : Prompt) :
+    (specPrompt sel p).messages.isEmpty = p.messages.isEmpty := by
+  cases h : p.messages <;> simp [specPrompt, h]
+
+/-- redaction only rewrites message texts: it changes nothing that survives stripping -/
+theorem strip_setUrls_spec (sel : Str → Bool) (ps : List Prompt) :
+    ∀ us, stripMessages (setUrls (ps.map (specPrompt sel)) us) = stripMessages (setUrls ps us) := by
+  induction ps with
+  | nil => intro _; rfl
+  | cons q qs ih =>
+    intro us
+    have hstrip : ∀ l : List Prompt, stripMessages (l.map (specPrompt sel)) = stripMessages l := by
+      intro l; simp [stripMessages, specPrompt]
+    by_cases he : q.messages.isEmpty = true
+    · have he' := (specPrompt_isEmpty sel q).trans he
+      simp only [List.map_cons, setUrls, he, he', if_true, stripMessages_cons, ih]
+      simp [specPrompt]
+    · have he' : ¬ (specPrompt sel q).messages.isEmpty = true := by rw [specPrompt_isEmpty]; exact he
+      simp only [List.map_cons, setUrls, he, he']
+      cases us with
+      | nil =>
+        show stripMessages ((q :: qs).map (specPrompt sel)) = _
+        exact hstrip _
+      | cons u us =>
+        have := ih us
+        simp only [stripMessages] at this ⊢
+        simp [specPrompt, this]
+
+/-- **exact result of the `Default` arm (code as it is)**, for every database state and every
+    vector of enqueue outcomes: all messages gone; a `messages_url` exactly for the prompts with
+    messages that precede the first failing iteration, when an upload is attempted at all. -/
+theorem defaultArm_code_eq (sel : Str → Bool) (env : UploadEnv) (ps : List Prompt) :
+    defaultArm codeShape sel env ps = some (stripMessages (setUrls ps
+      (if env.shouldEnqueue && (env.cas (ps.map (specPrompt sel))).dbOpens
+       then okPrefix (env.cas (ps.map (specPrompt sel))).outs else []))) := by
+  obtain ⟨n, hn⟩ := redactPrompts_eq sel ps
+  have hnil : ∀ l : List Prompt, setUrls l [] = l := by
+    intro l
+    induction l with
+    | nil => rfl
+    | cons p ps ih => simp only [setUrls]; split <;> simp [ih]
+  unfold defaultArm
+  by_cases hse : env.shouldEnqueue = true
+  · simp only [hse, if_true, hn, Option.bind_some, Bool.true_and, Option.some.injEq]
+    by_cases hdb : (env.cas (ps.map (specPrompt sel))).dbOpens = true
+    · simp only [enqueueCas, hdb, if_true]
+      rw [← strip_setUrls_spec sel ps, ← enqueueLoop_strip]
       split
-      · rename_i hok; exact enqueue_ok_clears _ _ hok
-      · exact stripMessages_empty _
-    · simp only [Option.some.injEq] at h
-      subst h; exact stripMessages_empty ps
+      · rename_i hok
+        exact (stripMessages_of_empty _ (enqueueLoop_ok_clears codeShape codeShape_safe _ _ hok)).symm
+      · simp [codeShape]
+    · simp only [enqueueCas, hdb, Bool.false_eq_true, if_false, hnil]
+      simp [codeShape, stripMessages, specPrompt]
+  · simp only [hse, Bool.false_eq_true, if_false, Bool.false_and, hnil]
+    simp [codeShape]
+
+theorem strip_setUrls_ids (ps : List Prompt) :
+    ∀ us, (stripMessages (setUrls ps us)).map (·.id) = ps.map (·.id) := by
+  induction ps with
+  | nil => intro _; rfl
+  | cons q qs ih =>
+    intro us
+    by_cases he : q.messages.isEmpty = true
+    · have := ih us
+      simp only [stripMessages] at this
+      simp [setUrls, he, stripMessages, this]
+    · simp only [setUrls, he]
+      cases us with
+      | nil => simp [stripMessages]
+      | cons u us =>
+        have := ih us
+        simp only [stripMessages] at this
+        simp [stripMessages, this]
+
+/-! ### unsafe shapes leak (one witness per rejected field, the other fields arbitrary) -/
+
+/-- a record whose only message is a tool call (left alone by the redaction, whatever the classifier) -/
+def leakWitness : Prompt := ⟨[], [.toolUse [] []], none⟩
+
+theorem redactPrompts_leakWitness (sel : Str → Bool) :
+    redactPrompts sel [leakWitness] = some ([leakWitness], 0) := by
+  simp [redactPrompts, redactMsgs, redactMsg, leakWitness]
+
+theorem leak_notEnqueueing (sh : EnqShape) (h : sh.stripsWhenNotEnqueueing = false) (sel : Str → Bool) :
+    defaultArm sh sel ⟨false, fun _ => ⟨true, []⟩⟩ [leakWitness] = some [leakWitness] := by
+  simp [defaultArm, h]
+
+theorem leak_noStripOnErr (sh : EnqShape) (h : sh.stripsOnErr = false) (sel : Str → Bool) :
+    defaultArm sh sel ⟨true, fun _ => ⟨false, []⟩⟩ [leakWitness] = some [leakWitness] := by
+  simp only [defaultArm, redactPrompts_leakWitness, Option.bind_some, enqueueCas, if_true]
+  simp [h]
+
+theorem leak_serializeSkip (sh : EnqShape) (h : sh.onSerializeErr = .skip) (sel : Str → Bool) :
+    defaultArm sh sel ⟨true, fun _ => ⟨true, [.serializeErr]⟩⟩ [leakWitness] = some [leakWitness] := by
+  simp only [defaultArm, redactPrompts_leakWitness, Option.bind_some, enqueueCas, if_true]
+  simp [enqueueLoop, leakWitness, h]
+
+theorem leak_enqueueSkip (sh : EnqShape) (h : sh.onEnqueueErr = .skip) (sel : Str → Bool) :
+    defaultArm sh sel ⟨true, fun _ => ⟨true, [.enqueueErr]⟩⟩ [leakWitness] = some [leakWitness] := by
+  simp only [defaultArm, redactPrompts_leakWitness, Option.bind_some, enqueueCas, if_true]
+  simp [enqueueLoop, leakWitness, h]
+
+theorem leak_noClear (sh : EnqShape) (h : sh.clearsOnOk = false) (sel : Str → Bool) :
+    ∃ u, defaultArm sh sel ⟨true, fun _ => ⟨true, [.ok []]⟩⟩ [leakWitness] =
+      some [{ leakWitness with messagesUrl := u }] := by
+  refine ⟨if sh.setsUrlOnOk then some [] else none, ?_⟩
+  simp only [defaultArm, redactPrompts_leakWitness, Option.bind_some, enqueueCas, if_true]
+  simp [enqueueLoop, leakWitness, h]
+
+theorem unsafe_shape_leaks_aux (sh : EnqShape) (hs : shapeSafe sh = false) (sel : Str → Bool) :
+    ∃ env ps out, defaultArm sh sel env ps = some out ∧ ∃ p ∈ out, p.messages ≠ [] := by
+  have hw : leakWitness.messages ≠ [] := by simp [leakWitness]
+  by_cases h5 : sh.stripsWhenNotEnqueueing = true
+  · by_cases h4 : sh.stripsOnErr = true
+    · by_cases h1 : sh.onSerializeErr = .propagate
+      · by_cases h2 : sh.onEnqueueErr = .propagate
+        · by_cases h3 : sh.clearsOnOk = true
+          · rw [(shapeSafe_iff sh).2 ⟨h1, h2, h3, h4, h5⟩] at hs
+            exact absurd hs (by decide)
+          · obtain ⟨u, hu⟩ := leak_noClear sh (by simpa using h3) sel
+            exact ⟨_, _, _, hu, _, List.mem_singleton.2 rfl, hw⟩
+        · have : sh.onEnqueueErr = .skip := by cases h : sh.onEnqueueErr <;> simp_all
+          exact ⟨_, _, _, leak_enqueueSkip sh this sel, _, List.mem_singleton.2 rfl, hw⟩
+      · have : sh.onSerializeErr = .skip := by cases h : sh.onSerializeErr <;> simp_all
+        exact ⟨_, _, _, leak_serializeSkip sh this sel, _, List.mem_singleton.2 rfl, hw⟩
+    · exact ⟨_, _, _, leak_noStripOnErr sh (by simpa using h4) sel, _, List.mem_singleton.2 rfl, hw⟩
+  · exact ⟨_, _, _, leak_notEnqueueing sh (by simpa using h5) sel, _, List.mem_singleton.2 rfl, hw⟩
 
 /-- in `notes` mode the filter output is the message-wise specification -/
 theorem applyStorageMode_notes (sel : Str → Bool) (env : UploadEnv) (ps : List Prompt) :
@@ -684,8 +882,11 @@ theorem applyStorageMode_notes (sel : Str → Bool) (env : UploadEnv) (ps : List
 theorem applyStorageMode_total (sel : Str → Bool) (env : UploadEnv) (mode : Mode) (ps : List Prompt) :
     ∃ out, applyStorageMode sel env mode ps = some out := by
   obtain ⟨n, hn⟩ := redactPrompts_eq sel ps
-  cases mode <;> simp [applyStorageMode, hn]
-  split <;> simp
+  cases mode with
+  | default =>
+    simp only [applyStorageMode, defaultArm, hn, Option.bind_some]
+    split <;> simp
+  | _ => simp [applyStorageMode, hn]
 
 /-! ## histories -/
 
